@@ -805,6 +805,12 @@ class _SPAKE2_Base:
     B("total-ed-decoder-refuses-small-y", ["C15", "C01"], [(ED, """    if y >= Q:
         raise ValueError("non-canonical point encoding: y >= Q")""", """    if y >= Q or y < 2**128:
         raise ValueError("non-canonical point encoding: y >= Q")""")], silent=["C05"]),
+    N("idiom-import-time-unknown-condition", [(GR, """    assert isinstance(pw, bytes)
+    # the oversized hash""", """    assert isinstance(pw, bytes)
+    import sys
+    if sys.flags.optimize > 5:
+        scalar_size_bytes = scalar_size_bytes + 0
+    # the oversized hash""")], note="a condition on an unknown external value evaluated during import: both branches leave the same state"),
     # ------------------------------------------------------------------ C16 isolation
     B("c16-blinding-cache-on-params", ["C16"], [(SP, """        pw_blinding = self.my_blinding().scalarmult(self.pw_scalar)
 """, """        cache = self.params.__dict__.setdefault("_blind_cache", {})
